@@ -230,7 +230,7 @@ def gen_case(rng, tier, only_inputs=("mq", "perc")):
     names = names + [n for n in names if "rescued" in str(sm[n].get("grouping"))] * 2
     # --- methods: 1-3, weighted towards pairs that mix remapping and non-remapping methods and different inputs
     k = rng.choice([1, 1, 2, 2, 2, 3])
-    shared_map = len(only_inputs) > 1 and rng.random() < 0.12
+    shared_map = len(only_inputs) > 1 and rng.random() < 0.2
     if shared_map:
         # two remapping methods of DIFFERENT input types with different numbers of files and ONE digestion parameter
         # set: both must see the one map for each of their files, whatever the other did with the list
@@ -260,7 +260,7 @@ def gen_case(rng, tier, only_inputs=("mq", "perc")):
     n_files = {i: rng.choice([1, 1, 2, 3]) for i in inputs}
     n_sets = rng.choice([1] + [n_files[i] for i in inputs] * 2)
     if shared_map:
-        n_files = dict(zip((ia, ib), rng.choice([(2, 3), (2, 3), (3, 2), (1, 2)])))
+        n_files = dict(zip((ia, ib), rng.choice([(2, 3), (2, 3), (2, 3), (3, 2), (1, 3)])))
         n_sets = 1
     psets, dig_flags = _param_sets(rng, n_sets)
     if flags["contains_decoys"]:
